@@ -32,7 +32,7 @@ EXPLANATION = (
     "transfer of partial charges."
 )
 ASSUMPTIONS = ["attrs.evolve copies field by field (shallow); copy.deepcopy / pickle use __getstate__/__setstate__; np.array copies"]
-FLOORS = {"C06.R1": 3, "C06.R2": 4, "C06.R3": 8, "C06.R4": 6, "C06.R5": 2, "C06.R6": 3}
+FLOORS = {"C06.R7": 10, "C06.R1": 3, "C06.R2": 4, "C06.R3": 8, "C06.R4": 6, "C06.R5": 2, "C06.R6": 3}
 
 ATOM = "molli.chem.atom"
 DEEP = {"deepcopy", "copy.deepcopy"}
@@ -61,6 +61,7 @@ def run(chk):
     r3_state(chk)
     r4_r5_derived(chk)
     r6_ensemble_copy(chk)
+    r7_ctor_forwarding(chk)
 
 
 def r1_evolve(chk):
@@ -75,10 +76,16 @@ def r1_evolve(chk):
         uses_attrs_evolve = has_call(ev.node, {"attrs.evolve", "evolve", "attr.evolve"})
         for fld in mf:
             ok = False
+            cond_note = ""
             for s in walk_no_nested(ev.node):
                 if isinstance(s, ast.Assign) and isinstance(s.targets[0], ast.Subscript) and isinstance(s.targets[0].slice, ast.Constant) \
                         and s.targets[0].slice.value == fld and _is_deep_copy_of(s.value, f"self.{fld}"):
-                    ok = True
+                    # the only admissible condition is "the caller did not override the field"
+                    gs = [g for g in walk_no_nested(ev.node) if isinstance(g, ast.If) and any(x is s for b in g.body for x in ast.walk(b))]
+                    if all(norm(g.test) in (f"'{fld}' not in changes", f"changes.get('{fld}') is None") for g in gs):
+                        ok = True
+                    else:
+                        cond_note = " (the copy is skipped when `" + " and ".join(norm(g.test) for g in gs) + "` is false)"
                 if isinstance(s, ast.Call) and isinstance(s.func, ast.Attribute) and s.func.attr == "setdefault" and len(s.args) == 2 \
                         and isinstance(s.args[0], ast.Constant) and s.args[0].value == fld and _is_deep_copy_of(s.args[1], f"self.{fld}"):
                     ok = True
@@ -89,7 +96,7 @@ def r1_evolve(chk):
             if not uses_attrs_evolve and has_call(ev.node, DEEP):
                 ok = True
             chk.decide(ok, "C06.R1", f"{ev.key}:fresh-{fld}", ev.where(), f"`{fld}` is deep-copied unless the caller overrides it",
-                       f"{ci.name}.evolve hands the same `{fld}` object to the copy (attrs.evolve is field-by-field shallow): "
+                       f"{ci.name}.evolve hands the same `{fld}` object to the copy (attrs.evolve is field-by-field shallow){cond_note}: "
                        f"Molecule(m).atoms[0].{fld} is m.atoms[0].{fld}, so editing the copy edits the source")
     pm = prog.cls(f"{ATOM}:Promolecule")
     init = prog.method(pm, "__init__")
@@ -369,3 +376,27 @@ def r6_ensemble_copy(chk):
                                or (f"self.{acc}" in stored_paths(st[0]) and norm(st[0].value) in (f"other.{acc}",)))
         chk.decide(ok, "C06.R6", f"{init.key}:copies-{cont}", init.where(st[0] if st else arm), f"{cont} = np.array(other.{acc})",
                    f"the ensemble copy branch " + (f"assigns `{short(st[0], 60)}`: the array is shared with the source" if st else f"does not transfer {acc}"))
+
+
+def r7_ctor_forwarding(chk):
+    """Every constructor of the chain hands the parameters it shares with the base constructors on to super().__init__:
+    a dropped `copy_atoms` makes join / concatenate adopt the sources' atom objects."""
+    prog = chk.prog
+    shared = ("n_atoms", "name", "copy_atoms", "charge", "mult")
+    for spec in ("molli.chem.bond:Connectivity", "molli.chem.geometry:CartesianGeometry", "molli.chem.structure:Structure", "molli.chem.molecule:Molecule"):
+        ci = prog.cls(spec)
+        init = prog.method(ci, "__init__")
+        chk.require(init is not None and init.cls == ci, f"{ci.name}.__init__ vanished")
+        sup = [c for c in walk_no_nested(init.node) if isinstance(c, ast.Call) and norm(c.func) == "super().__init__"]
+        chk.require(len(sup) == 1, f"{ci.name}.__init__: expected one super().__init__ call")
+        params = init.params()
+        has_kwds = init.node.args.kwarg is not None and any(isinstance(k.value, ast.Name) and k.arg is None and k.value.id == init.node.args.kwarg.arg for k in sup[0].keywords)
+        for p in shared:
+            key = f"{init.key}:forwards:{p}"
+            if p in params:
+                v = kwarg(sup[0], p)
+                chk.decide(v is not None and p in names_in(v), "C06.R7", key, init.where(sup[0]), f"{p}={norm(v) if v is not None else None}",
+                           f"{ci.name}.__init__ accepts `{p}` but does not pass it to super().__init__: the base constructor sees its default"
+                           + (" - copy_atoms falls back to False, so join / concatenate adopt and re-parent the sources' atoms" if p == "copy_atoms" else ""))
+            else:
+                chk.decide(has_kwds, "C06.R7", key, init.where(sup[0]), f"`{p}` travels in **kwds", f"{ci.name}.__init__ neither names `{p}` nor forwards **kwds")
